@@ -33,8 +33,13 @@
     curve with the same octets (and the DER lengths len-2, len-3 of the string itself) at octets 0, 1, 2.  Oracle (point_layout,
     from PKCS#11 / SEC 1 / X.690): found with key text X || Y (or 04 || X || Y: known finding F4) exactly when the string is a
     bare or a wrapped point of the curve's size, the size error otherwise; signatures verify under the key's true public
-    numbers.  NOT judged, only counted: 1 + 2n octets not starting with 04, and a bare point that also reads as a wrapper
-    (04 3f 04 … / 04 5f 04 …: X starts 3f 04 / 5f 04).
+    numbers.  The curve's point size decides: a string of 1 + 2n octets starting with 04 is the BARE point whatever its next
+    octets are — also 04 3f 04 … (P-256) / 04 5f 04 … (P-384), a bare point whose X starts 3f 04 / 5f 04 (0x3f = 65 - 2,
+    0x5f = 97 - 2) and which a rule looking only at the first three octets takes for a wrapper (finding F24).  Two REAL keys of
+    that class run in every invocation: P-256 d = 20220 (X = 3f0419f4…) and P-384 d = 401701 (X = 5f042f37…; the smallest such
+    scalars), derived from the scalar with `cryptography` at run time, each stored bare and wrapped, through get_p11_key,
+    load_pkcs11_key and sign_using_p11; plus the octet-string form for both curves.  NOT judged, only counted: 1 + 2n octets
+    not starting with 04.
 The Lean model replays each run's token log (get_p11_key / sign_using_p11 / load_pkcs11_key / p11_init ops) and answers env_cycle.
 """
 
@@ -407,6 +412,13 @@ def pattern_keys(r: Any) -> list[tuple[str, Any]]:
                 want.difference_update(hit)
             first = False
         assert not want, want
+    # finding F24: the smallest private scalars whose X coordinate starts <point length - 2> 04, i.e. whose BARE point starts
+    # with the three octets of a DER wrapper (1 key in 65536); fixed, in every run whatever the seed
+    for curve, cobj, d, x_starts in (("P-256", ec.SECP256R1(), 20220, "3f0419f47d597728"), ("P-384", ec.SECP384R1(), 401701, "5f042f37018be92a")):
+        nums = ec.derive_private_key(d, cobj).public_key().public_numbers()
+        x = nums.x.to_bytes(CURVE_SIZE[curve], "big")
+        assert x.hex().startswith(x_starts) and x[0] == 2 * CURVE_SIZE[curve] - 1 and x[1] == 0x04, (curve, d, x.hex())
+        out.append((f"{curve}:x[0:2]={x[:2].hex()}", K.TestKey({"kind": "ec", "curve": curve, "d": "%x" % d, "x": "%x" % nums.x, "y": "%x" % nums.y})))
     return out
 
 
@@ -420,10 +432,16 @@ def point_layout(size: int, s: bytes) -> tuple[str, bytes | None]:
     if len(s) == n:
         if s[0] != 0x04:
             return "right-size-not-uncompressed", s  # 1 + 2*size octets that do not start with the uncompressed marker: not judged beyond 'no foreign material'
-        if s[1] == n - 2 and s[2] == 0x04:
-            return "bare-that-also-reads-as-a-wrapper", s  # 04 3f 04 … / 04 5f 04 …: a bare point whose X starts 3f 04 / 5f 04 (1 key in 65536); recorded, not judged
+        # the curve's point size decides (PKCS#11 / SEC 1): 1 + 2*size octets starting with 04 ARE the uncompressed point, whatever
+        # the next octets — also 04 3f 04 … / 04 5f 04 …, a point whose X starts 3f 04 / 5f 04 (reads_as_wrapper: counted apart)
         return "bare", s
     return "wrong-size", None
+
+
+def reads_as_wrapper(size: int, s: bytes) -> bool:
+    """A BARE point (1 + 2*size octets, 04 first) whose next two octets are what a DER wrapper of the string itself would carry:
+    <len - 2> 04, i.e. X starts 3f 04 (P-256) / 5f 04 (P-384).  1 key in 65536; for the distribution in the evidence and the keys."""
+    return len(s) == 1 + 2 * size and s[0] == 0x04 and s[1] == len(s) - 2 and s[2] == 0x04
 
 
 def point_strings(r: Any, tier: str) -> list[tuple[str, bytes]]:
@@ -503,7 +521,8 @@ def run(tier: str, driver_ok: bool) -> Result:
         "load_pkcs11_key + sign_using_p11: C_Sign must reach slot+handle of the PRIVATE object and the signature must verify under the label's public key; "
         "(e) octet patterns of CKA_EC_POINT: real P-256 / P-384 keys whose X has 04 / 41 / 61 / 00 at octet 0, 1, 2 (+ control), bare and wrapped, public lookup / private object with point / "
         "load_pkcs11_key + sign (signature verified); octet strings of lengths 64..67, 96..99 with those octets (and len-2, len-3) at octets 0..2 under either curve: found with X||Y exactly when the "
-        "string is a bare or wrapped point of the curve's size, else the size error; "
+        "string is a bare or wrapped point of the curve's size, else the size error; the point size decides: 65 / 97 octets starting 04 are the bare point whatever follows — the real keys "
+        "P-256 d=20220 (X = 3f04…) and P-384 d=401701 (X = 5f04…), whose bare point starts like a DER wrapper (F24), bare and wrapped in every run; "
         "non-trivial = distinct case"
     )
     r = lib.rng("C15")
@@ -777,7 +796,7 @@ def run(tier: str, driver_ok: bool) -> Result:
         for wrapped in (False, True):
             attr = bytes([4, len(pt)]) + pt if wrapped else pt
             base_case = {"ec_point_pattern": tag, "curve": tk.curve, "wrapped": wrapped, "private_scalar": "%x" % tk.dd, "x_starts": hexs(pt[1:4]), "ec_point": hexs(attr)}
-            pkey = f"point:{tk.curve}:{'wrapped' if wrapped else 'bare'}"
+            pkey = f"point:{tk.curve}:{'wrapped' if wrapped else 'bare'}" + (f":x-starts-{hexs(pt[1:3])}" if reads_as_wrapper(tk.size, pt) else "")
             for public in (True, False):  # the public object; a private object that carries the point itself
                 es = p11emu.EmuSlot(0)
                 es.add_rsa("Other", K.rsa_keys(1024, 65537)[3])
@@ -792,6 +811,8 @@ def run(tier: str, driver_ok: bool) -> Result:
                     res.bump("point:real-key:" + part)
                 res.bump("point:real-key:" + ("wrapped" if wrapped else "bare"))
                 res.bump("point:layout:" + judge_point(res, case, pkey, tk.size, attr, impl))
+                if reads_as_wrapper(tk.size, attr):
+                    res.bump("point:bare-that-also-reads-as-a-wrapper:real-key:" + ("found" if isinstance(impl, dict) and impl.get("ok") else "refused"))
                 lines.append({"op": "get_p11_key", "hsm": C.hsm_j(cfg), "label": "L", "public": public, "hashUsingHsm": None, "log": C.canon_log(world.log)})
                 checks.append({"case": case, "impl": impl, "log": C.canon_log(world.log), "what": "get_p11_key"})
             # the signer's path: the private object has no point, the public key comes from the public object, and what the
@@ -830,11 +851,12 @@ def run(tier: str, driver_ok: bool) -> Result:
             impl = lib.run_impl(lambda: H.get_p11_key("L", H.init_pkcs11_modules(cfg), public=True, hash_using_hsm=None), key_j)
         case = {"ec_point_string": hexs(attr), "length": len(attr), "curve": curve, "via": "get_p11_key", "public": True}
         res.count(case)
-        kind = judge_point(res, case, f"point-string:{curve}:len{len(attr)}", CURVE_SIZE[curve], attr, impl)
+        raw = reads_as_wrapper(CURVE_SIZE[curve], attr)
+        kind = judge_point(res, case, f"point-string:{curve}:len{len(attr)}" + (f":bare:x-starts-{hexs(attr[1:3])}" if raw else ""), CURVE_SIZE[curve], attr, impl)
         res.bump("point:octet-string:" + kind)
         res.bump("point:layout:" + kind)
-        if kind == "bare-that-also-reads-as-a-wrapper":
-            res.bump("point:bare-that-also-reads-as-a-wrapper:" + ("found" if isinstance(impl, dict) and impl.get("ok") else "refused"))
+        if raw:
+            res.bump("point:bare-that-also-reads-as-a-wrapper:octet-string:" + ("found" if isinstance(impl, dict) and impl.get("ok") else "refused"))
         lines.append({"op": "get_p11_key", "hsm": C.hsm_j(cfg), "label": "L", "public": True, "hashUsingHsm": None, "log": C.canon_log(world.log)})
         checks.append({"case": case, "impl": impl, "log": C.canon_log(world.log), "what": "get_p11_key"})
 
